@@ -21,7 +21,11 @@ func init() {
 					if kind >= 2 && n > 2 {
 						continue
 					}
-					cs = append(cs, mkCase("", "c14", "HGlob", cfg, kind, n))
+					cs = append(cs, mkCase("", "c14", "HGlob", cfg, kind, n, 0))
+					if n >= 1 && n <= 2 || n == 3 && kind == 0 {
+						// patterns at the root and relative to the working directory
+						cs = append(cs, mkCase("", "c14", "HGlob", cfg, kind, n, 1), mkCase("", "c14", "HGlob", cfg, kind, n, 2))
+					}
 					if n <= 2 {
 						cs = append(cs, mkCase("", "c14", "HHelpers", cfg, kind, n))
 					}
